@@ -71,7 +71,7 @@ pub fn run(ctx: &Ctx, _replay: Option<&str>) {
     let mut n_stmt = 0i64;
     // every form, several times, with boundary-heavy operands
     let forms = 39usize;
-    for round in 0..ctx.n(40, 600) {
+    for round in 0..ctx.n(40, 2_500) {
         for f in 0..forms {
             let cfg = GenCfg { ascii_labels: round % 3 == 0, alphabet_strings: round % 4 != 3 };
             let pool: Vec<String> = vec![];
@@ -82,7 +82,7 @@ pub fn run(ctx: &Ctx, _replay: Option<&str>) {
         }
     }
     // whole programs
-    for _ in 0..ctx.n(1_500, 40_000) {
+    for _ in 0..ctx.n(1_500, 160_000) {
         let cfg = GenCfg { ascii_labels: r.chance(1, 2), alphabet_strings: r.chance(3, 4) };
         let prog = gen_program(&mut r, &cfg, 6);
         let st = Style::any(&mut r);
